@@ -52,6 +52,9 @@ static uint16_t rd16(uint64_t o) { return (uint16_t)(img[o] | (img[o + 1] << 8))
 static uint32_t rd32(uint64_t o) { return (uint32_t)rd16(o) | ((uint32_t)rd16(o + 2) << 16); }
 static uint64_t rd64(uint64_t o) { return (uint64_t)rd32(o) | ((uint64_t)rd32(o + 4) << 32); }
 
+/* [off, off+n) lies inside the file (no wrap-around) */
+static int inside(uint64_t off, uint64_t n) { return off <= isz && n <= isz - off; }
+
 static void hex(const unsigned char *p, size_t n)
 {
 	static const char d[] = "0123456789abcdef";
@@ -98,14 +101,14 @@ static uint64_t meta_block(const char *name, uint64_t off, uint64_t limit)
 	uint16_t h;
 	uint32_t len;
 	int raw;
-	if (off + 2 > isz || off + 2 > limit) {
+	if (!inside(off, 2) || limit < 2 || off > limit - 2) {
 		printf("m %s %llu 0 u trunc -\n", name, (unsigned long long)off);
 		return 0;
 	}
 	h = rd16(off);
 	len = h & 0x7FFF;
 	raw = (h & 0x8000) != 0;
-	if (off + 2 + len > isz || off + 2 + len > limit) {
+	if (!inside(off, 2 + (uint64_t)len) || off + 2 + len > limit) {
 		printf("m %s %llu %u %c trunc -\n", name, (unsigned long long)off, len, raw ? 'u' : 'c');
 		return 0;
 	}
@@ -135,6 +138,7 @@ static void loc_table(const char *name, uint64_t off, uint64_t count, uint64_t *
 {
 	uint64_t i, avail;
 	if (off >= isz) { printf("locs %s %llu 0 -\n", name, (unsigned long long)off); return; }
+	if (count > (1u << 24)) count = 1u << 24;          /* hostile counts: the list cannot be longer than the file anyway */
 	avail = (isz - off) / 8;
 	if (count > avail) { printf("note %s location list truncated: %llu of %llu entries inside the file\n", name,
 				    (unsigned long long)avail, (unsigned long long)count); count = avail; }
@@ -247,7 +251,7 @@ int main(int argc, char **argv)
 	if (frag_tbl != NOTBL) loc_table("frag", frag_tbl, ceil_div((uint64_t)frag_count * 16, META), &minloc);
 	if (exp_tbl != NOTBL) loc_table("export", exp_tbl, ceil_div((uint64_t)inode_count * 8, META), &minloc);
 	if (id_tbl != NOTBL) loc_table("id", id_tbl, ceil_div((uint64_t)id_count * 4, META), &minloc);
-	if (xattr_tbl != NOTBL && xattr_tbl + 16 <= isz) {
+	if (xattr_tbl != NOTBL && inside(xattr_tbl, 16)) {
 		uint64_t kv = rd64(xattr_tbl), firstid = NOTBL;
 		uint32_t cnt = rd32(xattr_tbl + 8);
 		printf("xhdr %llu ", (unsigned long long)xattr_tbl); hex(img + xattr_tbl, 16); putchar('\n');
